@@ -9,12 +9,18 @@ from ..model import Program, Undecided
 MSG = "indi.message"
 
 
+_VALF = None  # field behind the client element's public 'value' view (discovered from the getter by make_client)
+
+
 def make_client(p: Program, callbacks: Optional[List[Obj]] = None, cls="indi.client.client.Client", it: Interp = None) -> Obj:
     """The client is produced by interpreting its real constructor; callback configurations are registered through
     the real onevent().  'callbacks' holds templates from make_callback and is updated in place with the
     configuration objects that onevent created (so rules can refer to the registered objects)."""
     if it is None:
         raise Undecided("make_client needs the interpreter of the current path")
+    global _VALF
+    from .common import backing_field
+    _VALF = backing_field(p, "indi.client.elements.Element", "value")
     from ..absint import Frame
     ci = p.cls(cls)
     saved = dict(it.opts)
@@ -102,7 +108,7 @@ def msg(p: Program, clsname: str, device="D", name=None, children=None, **extra)
     return Obj(ci, a, label=f"{clsname}:{device}/{name}")
 
 
-def build_mirror(it: Interp, p: Program, kind: str, layout=(("DEV", "V1"), ("DEV", "V2"), ("E", "V1")), names=("A", "B"), callbacks=None):
+def build_mirror(it: Interp, p: Program, kind: str, layout=(("DEV", "V1"), ("DEV", "V2"), ("E", "V1")), names=("A", "B"), callbacks=None, old=None):
     """A client whose mirror was produced by the real client code from definitions: -> (client, {(dev, vec): vector Obj},
     {(dev, vec, el): element Obj}).  Objects are located through the public attributes devices/vectors/elements."""
     from .common import public_get
@@ -116,7 +122,7 @@ def build_mirror(it: Interp, p: Program, kind: str, layout=(("DEV", "V1"), ("DEV
     it.opts["assert_forks"] = False
     try:
         for dev, vn in layout:
-            parts = [part(p, f"Def{kind}", nm, None if kind == "BLOB" else "old") for nm in names]
+            parts = [part(p, f"Def{kind}", nm, old if old is not None else (None if kind == "BLOB" else "old")) for nm in names]
             it.run_function(Fn(pm, cl), [msg(p, f"Def{kind}Vector", dev, vn, parts)], {})
     finally:
         it.opts.clear()
@@ -200,7 +206,7 @@ def snapshot(client: Obj):
                 e = {}
                 if isinstance(els, Dct):
                     for ek, ev in els.pairs:
-                        e[show(ek).strip("'")] = show(ev.attrs.get("_value")) if isinstance(ev, Obj) else show(ev)
+                        e[show(ek).strip("'")] = show(ev.attrs.get(_VALF)) if isinstance(ev, Obj) else show(ev)
                 d[show(vk).strip("'")] = {"cls": vv.cls.name if vv.cls else None, "state": show(vv.attrs.get("state")).strip("'"), "elements": e,
                                           "meta": (show(vv.attrs.get("name")).strip("'"), show(vv.attrs.get("label")).strip("'"), show(vv.attrs.get("group")).strip("'")),
                                           "element_meta": {show(ek).strip("'"): (show(ev.attrs.get("name")).strip("'"), show(ev.attrs.get("label")).strip("'")) for ek, ev in (els.pairs if isinstance(els, Dct) else []) if isinstance(ev, Obj)}}
